@@ -84,8 +84,10 @@ struct World {
   std::map<int, vector<uint8_t> > given;  // id -> data of every response the mock gave for it
   vector<int> accepted_done;      // ids of non-rejected completions in order
   vector<string> trace;
-  unsigned conc, ps, dup, bad, rj;
+  unsigned conc, ps, dup, bad, rj, ddup;
   int cur_run;
+  std::map<int, bool> ask_full, run_full, run_or;   // discovery: did -> asked full; run -> flag used / OR of asks served
+  std::map<int, int> disc_done;
 };
 static World *W;
 static void exec_ops(const vector<Op> &ops);
@@ -138,6 +140,7 @@ class Mock : public DiscoverableRDMControllerInterface {
   }
   void StartDisc(bool full, RDMDiscoveryCallback *cb) {
     int run = nrun++;
+    W->run_full[run] = full;
     dout.push_back(std::make_pair(run, cb));
     NoteCall(full ? "X1" : "X0");
     if (!dscript.empty()) {
@@ -204,6 +207,8 @@ static void OnDisc(DiscCtx *ctx, const UIDSet &uids) {
   const vector<Op> *cb = ctx->cb;
   delete ctx;
   W->trace.push_back("K" + vh::str(did) + "@" + vh::str(W->cur_run));
+  if (W->disc_done[did]++ > 0) W->ddup++;
+  W->run_or[W->cur_run] = W->run_or[W->cur_run] || W->ask_full[did];
   if (!W->destroying) exec_ops(*cb);
 }
 
@@ -232,6 +237,7 @@ static void exec_op(const Op &o) {
       if (!W->discov) break;
       DiscCtx *ctx = new DiscCtx;
       ctx->did = W->next_did++; ctx->cb = &o.cb;
+      W->ask_full[ctx->did] = (o.kind == 'F');
       if (o.kind == 'F')
         W->dctl->RunFullDiscovery(ola::NewSingleCallback(&OnDisc, ctx));
       else
@@ -264,7 +270,7 @@ static string handle(const string &p) {
   w.discov = a[1] == "1";
   w.paused = w.destroying = false;
   w.next_id = w.next_did = 0; w.open = 0;
-  w.conc = w.ps = w.dup = w.bad = w.rj = 0; w.cur_run = -1;
+  w.conc = w.ps = w.dup = w.bad = w.rj = w.ddup = 0; w.cur_run = -1;
   if (a[2] != "-") {
     vector<string> items = vh::split(a[2], ',');
     for (size_t i = 0; i < items.size(); i++) {
@@ -305,10 +311,15 @@ static string handle(const string &p) {
     if (!(w.accepted_done[i - 1] < w.accepted_done[i])) sorted = false;
   unsigned lost = 0;
   for (int id = 0; id < w.next_id; id++) if (!w.completions.count(id) || w.completions[id] == 0) lost++;
+  // discovery coalescing: a run that served requests was full iff one of them asked for full;
+  // no discovery callback ran twice
+  unsigned dv = w.ddup;
+  for (std::map<int, bool>::iterator it = w.run_or.begin(); it != w.run_or.end(); ++it)
+    if (w.run_full[it->first] != it->second) dv++;
   std::ostringstream o;
   o << "t=" << join(traces, "/", "") << ";i=" << join(ints, "/", "") << ";conc=" << w.conc
     << ";ps=" << w.ps << ";dup=" << w.dup << ";ooo=" << (sorted ? 0 : 1) << ";bad=" << w.bad
-    << ";lost=" << lost << ";rj=" << w.rj;
+    << ";lost=" << lost << ";rj=" << w.rj << ";dv=" << dv;
   W = NULL;
   return o.str();
 }
